@@ -60,12 +60,12 @@ func (e *c10env) sharedAttrs(r *gen.R) *sharedAttrsT {
 type c10env struct {
 	skipClash string
 	shared    []*sharedAttrsT
-	log   *mon.Log
-	pool  []io.Writer
-	fds   *fdCapture
-	nodes []*mnode
-	seq   int
-	r     *gen.R
+	log       *mon.Log
+	pool      []io.Writer
+	fds       *fdCapture
+	nodes     []*mnode
+	seq       int
+	r         *gen.R
 }
 
 var c10ts = time.Date(2031, 7, 9, 21, 4, 5, 123456789, time.FixedZone("P", 5*3600+1800))
